@@ -148,6 +148,30 @@ func c10Step(el *[c10E]*secp256k1.Element, sc *[c10S]*secp256k1.Scalar, m c10Mod
 			case "Base":
 				r.Base()
 				nm.e[o.i] = ref.G()
+			case "zero;Identity":
+				*r = secp256k1.Element{}
+				r.Identity()
+				nm.e[o.i] = ref.Infinity()
+			case "zero;Base":
+				*r = secp256k1.Element{}
+				r.Base()
+				nm.e[o.i] = ref.G()
+			case "zero;Multiply(nil)":
+				*r = secp256k1.Element{}
+				r.Multiply(nil)
+				nm.e[o.i] = ref.Infinity()
+			case "zero;Decode(00)":
+				*r = secp256k1.Element{}
+				err = r.Decode([]byte{0})
+				nm.e[o.i] = ref.Infinity()
+			case "zero;Set":
+				*r = secp256k1.Element{}
+				r.Set(a)
+				nm.e[o.i] = m.e[o.j]
+			case "zero;Decode(Encode)":
+				*r = secp256k1.Element{}
+				err = r.Decode(a.Encode())
+				nm.e[o.i] = m.e[o.j]
 			case "Add(nil)":
 				r.Add(nil)
 			case "Subtract(nil)":
@@ -458,8 +482,8 @@ func init() {
 	}
 
 	Parts["C01persist"] = Part{"C01", persistSub(elemRule, isElem, arith("Multiply", "Double", "Decode(Encode)", "Base", "Negate"))}
-	Parts["C02persist"] = Part{"C02", persistSub(elemRule, isElem, arith("Add", "Subtract", "Double", "Negate", "Identity"))}
-	Parts["C05persist"] = Part{"C05", persistSub(elemRule, isElem, arith("Set", "Negate", "Identity", "Double", "Decode(EncodeUncompressed)"))}
+	Parts["C02persist"] = Part{"C02", persistSub(elemRule, isElem, arith("Add", "Subtract", "Double", "Negate", "Identity", "zero;Identity"))}
+	Parts["C05persist"] = Part{"C05", persistSub(elemRule, isElem, arith("Set", "Negate", "Identity", "Double", "Decode(EncodeUncompressed)", "zero;Identity", "zero;Decode(00)", "zero;Multiply(nil)"))}
 	Parts["C06persist"] = Part{"C06", persistSub(scalRule, isScal, arith("Add", "Subtract", "Multiply", "Square", "Invert", "Pow"))}
 	Parts["C13persist"] = Part{"C13", persistSub(scalRule, isScal, arith("CSelect(0,self,arg)", "CSelect(1,self,arg)", "Set", "MinusOne", "Decode(invalid)", "Subtract"))}
 	Parts["C10persist"] = Part{"C10", C10persist}
